@@ -20,6 +20,7 @@ package storage
 
 import (
 	"strings"
+	"sync"
 	"time"
 
 	"github.com/eko/gocache/lib/v4/cache"
@@ -36,6 +37,7 @@ var sessionStorePruneInterval = 10 * time.Minute
 // All entries are stored with a TTL, so they will be removed automatically.
 type InMemorySessionDatabase struct {
 	underlying *cache.Cache[[]byte]
+	mutex      sync.Mutex
 }
 
 // NewInMemorySessionDatabase creates a new in memory session database.
@@ -53,6 +55,7 @@ func (s *InMemorySessionDatabase) GetStore(ttl time.Duration, keys ...string) Se
 		ttl:        ttl,
 		prefixes:   keys,
 		db:         s,
+		mutex:      &s.mutex,
 	}
 }
 
